@@ -286,6 +286,32 @@ def run(pid, tier, replay=None):
                              "that cannot be applied; valid/conflicting/malformed transactions interleaved with head changes); non-trivial = at least 2 deliveries")
 
     elif pid == "C12":
+        # ---- (a) design level: the miner interleaved with the network thread and the clock (MC_Miner)
+        w, g, blocks, txs = build_universe(cfg, keys)
+        ub = {i: to_ledger_blk(w.observe(blocks[i])) for i in (1, 2, 3, 4)}
+        ut = {i: w.observe_tx(txs[i]) for i in (1001, 1002)}
+        defs = EXTRA + "UBlocksDef == %s\nUTxsDef == %s\nGenesisDef == %s\n" % (store_drv.tla(ub), store_drv.tla(ut), store_drv.tla(to_ledger_blk(w.observe(g))))
+        mcc = {k: v for k, v in consts.items() if k != "Focus"}
+        mcc.update({"UBlocks": ("<-", "UBlocksDef"), "UTxs": ("<-", "UTxsDef"), "GenesisB": ("<-", "GenesisDef"), "Ticks": {1, 5},
+                    "MaxSteps": 5 if quick else 6, "MinerKey": 3, "Peers": {"p", "q"}, "SaveBeforeApply": False, "HandOverBeforeAdd": False,
+                    "ClockOffsets": ("<-", "OffsDef")})
+        invs = ["I_C12_FoundBlockValid", "I_C12_RewardExact", "I_C13_PoolValid", "I_C09_StoreNotImpaired"]
+        r = tracecheck.model("MC_Miner", "Spec", mcc, invariants=invs, properties=["A_C12_AdoptedStep"], workers=16, timeout=2400, view="View",
+                             extra_defs=defs + "OffsDef == {5, 0 - 20}\n")
+        tlc.require_clean(r, "MC_Miner")
+        chk.add_tlc("MC_Miner (miner request/found interleaved with deliveries of 4 blocks + 2 transactions and clock ticks, <= %d steps, clock 20 s behind .. 5 s ahead of genesis)" % mcc["MaxSteps"], r)
+        if r.violated or getattr(r, "timed_out", False):
+            return machinery_failure(pid, "MC_Miner: %s" % (r.violated or "timed out"))
+        rw = tracecheck.model("MC_Miner", "Spec", mcc, invariants=["I_C12_FoundBlockValid"], workers=8, timeout=900, view="View",
+                              extra_defs=defs + "OffsDef == {0 - 30}\n")
+        chk.add_tlc("MC_Miner witness run for known finding F-C12b: clock 30 s behind the head's timestamp", rw, expect_violation="I_C12_FoundBlockValid")
+        if not rw.violated:
+            chk.notes.append("the model no longer exhibits F-C12b (head at the future limit)")
+        rh = tracecheck.model("MC_Miner", "Spec", dict(mcc, HandOverBeforeAdd=True, MaxSteps=4), properties=["A_C12_AdoptedStep"], workers=8, timeout=900, view="View",
+                              extra_defs=defs + "OffsDef == {5}\n")
+        chk.add_tlc("MC_Miner witness run: hand-over-before-add ordering (F-C12a, fixed in the tree) must violate adoption", rh, expect_violation="A_C12_AdoptedStep")
+        if not rh.violated:
+            return machinery_failure(pid, "vacuity: the hand-over-before-add ordering does not violate adoption in the model")
         n = 40 if quick else 500
         for i in range(n):
             w3 = sk.World(cfg, keys, tag=b"m%d" % i)
